@@ -357,6 +357,19 @@ def make_case(op, sym, k, sa, sb, rng, stream, label, budget=4, unary=False, bou
     defs = ([prelude] if prelude else []) + [def_operand("a", k, sa, litsA), def_operand("b", k, sb, litsB)]
     defs = "\n".join(defs)
     expr = (sym + "a") if unary else ("a %s b" % sym)
+    # the operator kernels have separate arms for operands that are variable references and for plain values: for the
+    # kinds whose literals need no annotation one operand of the result expression is written inline in 30% of the cases
+    inline = None
+    if not typed(k) and not prelude and rng.random() < 0.3:
+        def text(shape, lits):
+            t = def_operand("q", k, shape, lits).split(" := ", 1)[1]
+            return "(%s)" % t if shape == "s" and (t.startswith("-") or k in ("c64", "r64")) else t
+        if unary:
+            inline, expr = "a", sym + text(sa, litsA)
+        elif rng.random() < 0.5:
+            inline, expr = "a", "%s %s b" % (text(sa, litsA), sym)
+        else:
+            inline, expr = "b", "a %s %s" % (sym, text(sb, litsB))
     # needed scalar pairs
     bs = bshape(sa, sb)
     pairs, seen = [], {}
@@ -383,7 +396,7 @@ def make_case(op, sym, k, sa, sb, rng, stream, label, budget=4, unary=False, bou
     case_sx = sx(["ew", op, k, shape_sx(sa), shape_sx(sb), [[ia, ib] for ia, ib in pairs]])
     fa, fb = form(sa), form(sb)
     tags = dict(stream=stream, op=op, kind=k, arm=label, forms="%s-%s" % (fa, fb), kind_forms="%s:%s-%s" % (k, fa, fb),
-                accepted="yes" if accepts(op, k) else "no")
+                accepted="yes" if accepts(op, k) else "no", written="inline-" + inline if inline else "variables")
     if op in NONCOMM:
         tags["noncomm"] = "%s:%s:%s" % (KCLASS[k], op, label)
     return dict(sx=case_sx, impl=dict(srcs=srcs), tags=tags)
